@@ -256,6 +256,7 @@ pub struct GenOpts {
     pub allow_zero_cone: bool,
     pub force_nonneg: bool,    // always include at least one nonnegative cone
     pub allow_soc1: bool,      // singleton second-order cones (consolidated into nonnegative cones)
+    pub degenerate: bool,      // empty cones, duplicated rows, zero columns (boundary shapes)
 }
 
 impl GenOpts {
@@ -271,6 +272,7 @@ impl GenOpts {
             allow_zero_cone: true,
             force_nonneg: false,
             allow_soc1: false,
+            degenerate: false,
         }
     }
     pub fn thorough() -> Self {
@@ -290,6 +292,9 @@ fn pos(cs: &mut ChoiceStream, tag: &str) -> f64 {
 }
 
 pub fn interior_point(cs: &mut ChoiceStream, cone: &ConeSpec, dual: bool) -> Vec<f64> {
+    if cone.dim() == 0 {
+        return vec![];
+    }
     match cone {
         ConeSpec::Zero(d) => {
             if dual {
@@ -387,6 +392,13 @@ fn gen_cones(cs: &mut ChoiceStream, o: &GenOpts) -> Vec<ConeSpec> {
             }
         };
         cones.push(c);
+        if o.degenerate && cs.prob("emptycone", 1, 8) {
+            cones.push(match cs.choose("emptykind", 3) {
+                0 => ConeSpec::Nonneg(0),
+                1 => ConeSpec::Zero(0),
+                _ => ConeSpec::Soc(0),
+            });
+        }
     }
     if o.force_nonneg && !cones.iter().any(|c| matches!(c, ConeSpec::Nonneg(_))) {
         cones.insert(0, ConeSpec::Nonneg(2));
@@ -422,6 +434,26 @@ pub fn gen_problem(cs: &mut ChoiceStream, o: &GenOpts) -> Prob {
                 mask_a[i][j] = true;
                 dense_a[i][j] = cs.small("a");
             }
+        }
+    }
+    if o.degenerate && m > 1 && cs.prob("duprow", 1, 6) {
+        // a duplicated (redundant) constraint inside the first scalar cone with >= 2 rows
+        let mut row = 0;
+        for c in &cones {
+            let d = c.dim();
+            if d >= 2 && matches!(c, ConeSpec::Zero(_) | ConeSpec::Nonneg(_)) {
+                dense_a[row + 1] = dense_a[row].clone();
+                mask_a[row + 1] = mask_a[row].clone();
+                break;
+            }
+            row += d;
+        }
+    }
+    if o.degenerate && n > 1 && cs.prob("zerocol", 1, 6) {
+        let j = cs.choose("zerocolj", n as u32) as usize;
+        for i in 0..m {
+            mask_a[i][j] = false;
+            dense_a[i][j] = 0.0;
         }
     }
     // row / column scalings (constant over non-scalar cones so that the planted
